@@ -104,6 +104,10 @@ func vhC02Shapes(k int) []vhPgon {
 		return []vhPgon{vhRect(0, 0, 10, 12, true), vhRect(3, 2, 7, 4, false), vhRect(3, 6, 7, 9, false)}
 	case 13: // three holes in a column, the middle one shifted
 		return []vhPgon{vhRect(0, 0, 10, 14, true), vhRect(3, 1, 7, 3, false), vhRect(4, 5, 8, 7, false), vhRect(3, 9, 7, 12, false)}
+	case 18: // a line there and back (zero area) from the start point of a self-crossing hexagon that it crosses three times
+		return []vhPgon{{{0, 0}, {4, 8}}, {{0, 0}, {0, 8}, {3, 0}, {1, 3}, {1, 7}, {5, 2}}}
+	case 19: // the same hexagon, the zero-area subpath last
+		return []vhPgon{{{0, 0}, {0, 8}, {3, 0}, {1, 3}, {1, 7}, {5, 2}}, {{0, 0}, {4, 8}}}
 	default: // stacked triangular holes
 		return []vhPgon{vhRect(0, 0, 10, 12, true), {{3, 2}, {5, 4}, {7, 2}}, {{3, 6}, {5, 9}, {7, 6}}}
 	}
@@ -123,7 +127,7 @@ func vhC02Tail(k int) (vhPgon, []vhPgon) {
 	return nil, nil
 }
 
-const vhC02NShapes = 18
+const vhC02NShapes = 20
 
 // C02: Settle(rule) fills exactly what the input fills under the rule; output windings are 0/1
 // and every output contour's orientation makes NonZero, EvenOdd and Positive agree.
